@@ -98,6 +98,15 @@ CFGS = {
              "lower": {"cosmo": {"h0": 50, "om": 0.05}, "lens": {"lambda_mst": 0.5}, "kin": {"a_ani": 0.1}},
              "upper": {"cosmo": {"h0": 100, "om": 0.8}, "lens": {"lambda_mst": 1.5}, "kin": {"a_ani": 5.0}},
              "fixed": {}, "center": [70.0, 0.3, 1.0, 1.0], "width": [3.0, 0.05, 0.05, 0.3]},
+    # h0 and om fixed, the remaining cosmological parameter free: the likelihood must still follow it
+    "fwcdm2_fixed_h0_om": {"cosmology": "FwCDM", "lenses": 2, "model": {"lambda_mst_sampling": True},
+                           "lower": {"cosmo": {"w": -2.0}, "lens": {"lambda_mst": 0.5}},
+                           "upper": {"cosmo": {"w": -0.3}, "lens": {"lambda_mst": 1.5}},
+                           "fixed": {"cosmo": {"h0": 70.0, "om": 0.3}}, "center": [-1.0, 1.0], "width": [0.15, 0.05]},
+    "olcdm2_fixed_h0_om": {"cosmology": "oLCDM", "lenses": 2, "model": {"lambda_mst_sampling": True},
+                           "lower": {"cosmo": {"ok": -0.3}, "lens": {"lambda_mst": 0.5}},
+                           "upper": {"cosmo": {"ok": 0.3}, "lens": {"lambda_mst": 1.5}},
+                           "fixed": {"cosmo": {"h0": 70.0, "om": 0.3}}, "center": [0.0, 1.0], "width": [0.05, 0.05]},
     "flcdm2_fixed_om": {"cosmology": "FLCDM", "lenses": 2, "model": {"lambda_mst_sampling": True},
                         "lower": {"cosmo": {"h0": 50}, "lens": {"lambda_mst": 0.5}},
                         "upper": {"cosmo": {"h0": 100}, "lens": {"lambda_mst": 1.5}},
@@ -105,11 +114,21 @@ CFGS = {
 }
 
 _SAMPLERS = {}
+_PRISTINE = {}
 
 
-def build_sampler(name):
+def fresh_likelihood(name):
+    """the likelihood of a NEWLY built object that has never been evaluated (deep copy of a pristine one): the
+    reference for "the stored log-probability is the likelihood at the stored sample" must not share any state
+    with the object that drove the run"""
+    if name not in _PRISTINE:
+        _PRISTINE[name] = build_sampler(name, cached=False)
+    return copy.deepcopy(_PRISTINE[name]).chain.likelihood
+
+
+def build_sampler(name, cached=True):
     """the real object under test, built from the repo's own classes"""
-    if name in _SAMPLERS:
+    if cached and name in _SAMPLERS:
         return _SAMPLERS[name]
     from hierarc.Sampling.mcmc_sampling import MCMCSampler
     c = CFGS[name]
@@ -124,7 +143,8 @@ def build_sampler(name):
         extra["cosmo_fixed"] = FlatLambdaCDM(H0=c["cosmo_fixed"][0], Om0=c["cosmo_fixed"][1])
     s = MCMCSampler(copy.deepcopy(LENSES[:c["lenses"]]), c["cosmology"], dict(c["model"]), kb,
                     interpolate_cosmo=True, num_redshift_interp=10, **extra)
-    _SAMPLERS[name] = s
+    if cached:
+        _SAMPLERS[name] = s
     return s
 
 
@@ -290,6 +310,9 @@ def oracle(name, hist, obs, rng, reeval_max):
             idx = rng.sample(idx, reeval_max)
         for i in idx:
             v = float(like(xs[i]))
+            if close(v, lps[i], 1e-12):
+                # ... and by an object that has never been evaluated before (no shared state with the run)
+                v = float(fresh_likelihood(name)(xs[i]))
             if not close(v, lps[i], 1e-12):
                 fails.append(("mcmc_emcee:stored_logp_mismatch", "%s: stored log-prob %r, likelihood "
                               "re-evaluated at the stored sample %r gives %r"
@@ -592,6 +615,9 @@ def fixed_histories(rng):
     out.append(("flcdm2", {"backend": "hdf", "ops": [mk_op(False, 8, 2, 4, m, sg, 41, crash=20), mk_op(True, 8, 1, 1, m, sg, 42)]}))
     # no backend keyword at all
     out.append(("flcdm3", {"backend": "none", "ops": [mk_op(False, 8, 1, 2, CFGS["flcdm3"]["center"], CFGS["flcdm3"]["width"], 51)]}))
+    # every block of the cosmology that is still sampled must be followed by the likelihood: h0 and om fixed, w / ok free
+    for nm in ("fwcdm2_fixed_h0_om", "olcdm2_fixed_h0_om"):
+        out.append((nm, {"backend": "mem", "ops": [mk_op(False, 8, 1, 2, CFGS[nm]["center"], CFGS[nm]["width"], 71)]}))
     # continue with another walker count than the store (documented misuse, model/impl error class only)
     out.append(("flcdm2", {"backend": "mem", "ops": [mk_op(False, 8, 0, 2, m, sg, 61), mk_op(True, 10, 0, 2, m, sg, 62)]}))
     return out
@@ -767,7 +793,7 @@ def run(ctx, res):
         hists += sweep_histories(rng, "fix2", 8, 1, 2, ["mem", "hdf"])
         nrand = 8 if not ctx.search_mode else 16
     for _ in range(nrand):
-        hists.append(gen_random_history(rng, names if thorough else ["flcdm2", "flcdm3", "fwcdm4", "flcdm2_fixed_om"]))
+        hists.append(gen_random_history(rng, names if thorough else ["flcdm2", "flcdm3", "fwcdm4", "flcdm2_fixed_om", "fwcdm2_fixed_h0_om", "olcdm2_fixed_h0_om"]))
     refs = {}
     for name, hist in hists:
         obs = judge(ctx, res, name, hist, reeval, cases)
